@@ -67,6 +67,9 @@ pub fn run_one(
                 adm_share,
                 mempool: Vec::new(),
             };
+            if profile.name == "ADM" && ctx.rng.chance(1, 5) {
+                crate::actors_adm::drill_kill_bank(&mut sim, &mut ctx);
+            }
             for _ in 0..steps {
                 match profile.name {
                     _ => actors::step_mkt(&mut sim, &mut ctx),
